@@ -6,6 +6,8 @@ from formats import images as F
 from formats import rpms as R
 from formats import manifest_common as mc
 
+import random
+random_const = random.Random(0)          # only for the fixed priming image of img_load (its values do not matter)
 SOURCE_NAMES = ("src", "nosrc")
 # names that are NOT architectures: unknown ones and near misses of table entries / of the two source names
 NEAR_MISS = ["SRC", "Src", "src ", " src", "src\n", "nosrc\n", "NOSRC", "no-src", "nosrc ", "source", "srcs", "sr", "nosr", "src.rpm",
@@ -39,8 +41,17 @@ def lower(k):
 
 
 # ------------------------------------------------------------------------------------------------ images
-def simple_image(rng, n, arch="x86_64", variant="Server"):
-    """a valid image whose identity is unique through disc_number = n"""
+def simple_image(rng, n, arch="x86_64", variant="Server", own_arch=None):
+    """a valid image whose identity is unique through disc_number = n; `arch` = the tree arch it is meant for (path),
+    `own_arch` = the image's own arch attribute (independent of the tree key: a source ISO under a binary tree, a noarch image
+    under src, ...)"""
+    img = _simple_image(rng, n, arch, variant)
+    if own_arch is not None:
+        img["arch"] = own_arch
+    return img
+
+
+def _simple_image(rng, n, arch, variant):
     return {"path": "%s/%s/iso/img-%d.iso" % (variant, "source" if arch == "src" else arch, n), "mtime": rng.choice(F.MTIMES),
             "size": rng.choice(F.BIG_SIZES + [1]), "volume_id": rng.choice([None, "vol-%d" % n]), "type": rng.choice(["dvd", "cd", "netinst", "boot"]),
             "format": "iso", "arch": arch, "disc_number": n, "disc_count": n + 1,
@@ -70,7 +81,7 @@ def gen_images_doc(rng, tier, n):
     used = set()
     for v in variants:
         pool = [a for a in t["arches"] if a not in used] or t["arches"]
-        my = rng.sample(pool, rng.randint(1, 3))
+        my = rng.sample(pool, rng.choice([1, 2, 2, 3, 3]))
         if rng.random() < 0.4:
             my[0] = rng.choice(["x86_64", "i386", "ppc64le", "aarch64", "s390x", "noarch"])     # overlap between variants, never equality of the sets
         my = list(dict.fromkeys(my))
@@ -80,7 +91,9 @@ def gen_images_doc(rng, tier, n):
             cell = []
             for _ in range(rng.choice([0, 1, 1, 2, 3])):
                 k += 1
-                cell.append(simple_image(rng, k, a, v))
+                # the image's own arch is NOT tied to the tree key: the key's arch, a source ISO filed under a binary tree, another arch
+                own = rng.choice([a, a, "src", "src", "noarch", rng.choice(t["arches"]), "nosrc"])
+                cell.append(simple_image(rng, k, a, v, own_arch=own))
             images[v][a] = cell
     p_src = 0.65 if ver in ("1.0", "1.1") else 0.2
     srcful = [v for v in variants if rng.random() < p_src]
@@ -90,7 +103,9 @@ def gen_images_doc(rng, tier, n):
         cell = []
         for _ in range(rng.choice([1, 1, 2, 3, 0])):
             k += 1
-            cell.append(simple_image(rng, k, "src", v))
+            # under the src key: arch "src", but also "noarch" / a binary arch / "nosrc" (any non-blank string is valid)
+            own = rng.choice(["src", "src", "noarch", rng.choice(t["arches"]), "x86_64", "nosrc"])
+            cell.append(simple_image(rng, k, "src", v, own_arch=own))
         images[v]["src"] = cell
     r = rng.random()
     if r < 0.10:
@@ -484,6 +499,17 @@ class C10(Prop):
             return {"steps": mc.run_trace(obj, R.mapping, R.add, a["ops"])}
         if case["op"] == "img_load":
             im = F.lib()
+            # another manifest object first reads a document with the SAME variant names and a DIFFERENT binary arch set (src image next to
+            # the single key `noarch`): loading is per object, nothing of it may leak into the load under test (makes every case, and
+            # therefore every replay, self-contained against state kept between loads)
+            try:
+                imgs = a["doc"]["payload"]["images"]
+                prime = {"header": a["doc"]["header"], "payload": {"compose": a["doc"]["payload"]["compose"], "images": dict(
+                    (v, {"src": [dict(_simple_image(random_const, 9000 + i, "src", "P"), subvariant="P")], "noarch": []})
+                    for i, v in enumerate(sorted(imgs)) if isinstance(v, str))}}
+                im.Images().loads(json.dumps(prime, sort_keys=True))
+            except Exception:  # noqa
+                pass
             m = im.Images()
             try:
                 m.loads(json.dumps(a["doc"], sort_keys=True))
